@@ -1,6 +1,7 @@
 package simcheck
 
 import (
+	"crypto/md5"
 	"bytes"
 	"fmt"
 	"strings"
@@ -33,6 +34,7 @@ type c05In struct {
 	Chunks   []int  `json:"chunks,omitempty"`
 	Prior    string `json:"prior"` // "-" none, else plaintext of an earlier (longer/shorter) version
 	Ops      []FsOp `json:"ops,omitempty"`
+	ManyWrites bool `json:"many_writes,omitempty"` // additionally 70 000 writes of the same data, all stored bytes must differ
 }
 
 const c05Marker = "MARKER-7f3a9c51e2d84b06-PLAINTEXT"
@@ -41,6 +43,7 @@ func c05Gen(r *Rand, tier string) interface{} {
 	in := &c05In{Cipher: []string{"aes", "ext"}[r.Intn(2)], Disk: r.Chance(1, 4), HostOnly: r.Chance(1, 3)}
 	in.Secret = []string{"", "s", "correct horse battery staple"}[r.Intn(3)]
 	in.Salt = []string{"", "NaCl", strings.Repeat("salt", 20)}[r.Intn(3)]
+	in.ManyWrites = !in.Disk && r.Chance(1, 400)
 	switch r.Intn(7) {
 	case 0:
 		in.Plain = ""
@@ -160,6 +163,30 @@ func c05Run(inI interface{}, env *Env) *Failure {
 	}
 	if second, _ := raw.ReadFile("dir/second.bin"); bytes.Equal(second, stored) {
 		return failf("C05/deterministic-ciphertext", key, "two writes of the same data produced identical stored bytes (%d bytes)", len(stored))
+	}
+	// ... and so do any two of many writes: a nonce that comes from a counter of limited width
+	// or a generator with a short period repeats only after tens of thousands of encryptions
+	if in.ManyWrites {
+		env.Count("probe.70000-writes-of-the-same-data")
+		seen := make(map[[16]byte]int, 70000)
+		small := plain
+		if len(small) > 24 {
+			small = small[:24]
+		}
+		for i := 0; i < 70000; i++ {
+			if err := w.WriteFile("dir/many.bin", []byte(small), filesystem.DefaultUnixFileMode); err != nil {
+				return failf("C05/write-refused", key, "write %d of the same data failed: %v", i, err)
+			}
+			st, err := raw.ReadFile("dir/many.bin")
+			if err != nil {
+				panic(harnessTrouble{err.Error()})
+			}
+			h := md5.Sum(st)
+			if j, dup := seen[h]; dup {
+				return failf("C05/deterministic-ciphertext", key+"/many", "writes %d and %d of the same data produced identical stored bytes (%d bytes)", j, i, len(st))
+			}
+			seen[h] = i
+		}
 	}
 	// attacks on the stored bytes
 	attack := func(what string, mutated []byte, reader filesystem.Filespace) *Failure {
